@@ -439,7 +439,8 @@ def boundary_points(b, rng, per_step=4):
 
 # ------------------------------------------------------------------ flow factories, both orientations
 FACTORIES = ("maf-affine", "maf-rqs", "planar", "coupling", "triangular-spline", "bnaf")
-TOL = {"bnaf": 2e-4}
+# "bnaf-deep": the non-default nn_depth=2 (the condition enters at the first hidden layer only; seeded change C04d); not in the rotating grids
+TOL = {"bnaf": 2e-4, "bnaf-deep": 2e-4}
 
 
 def build_flow(name, dim, cond, inv, kint, layers=2):
@@ -460,6 +461,8 @@ def build_flow(name, dim, cond, inv, kint, layers=2):
                              **({} if cond is None else dict(width_size=8, depth=1)))
     if name == "coupling":
         return F.coupling_flow(k, base_dist=base, cond_dim=cond, flow_layers=layers, nn_width=8, invert=inv)
+    if name == "bnaf-deep":
+        return F.block_neural_autoregressive_flow(k, base_dist=base, cond_dim=cond, flow_layers=1, nn_depth=2, nn_block_dim=3, invert=inv)
     if name == "triangular-spline":
         return F.triangular_spline_flow(k, base_dist=base, cond_dim=cond, flow_layers=layers, knots=4, invert=inv)
     if name == "bnaf":
